@@ -87,6 +87,7 @@ static int set_n[MAXSETS], set_x[MAXSETS][8], n_sets;
 static char set_prefix[MAXSETS][8];
 typedef struct { int set, target; unsigned req; int has[8]; int id[8]; } MRuleSet;
 static MRuleSet mrs[40]; static int n_mrs;
+static int override_on; static unsigned override_req;
 
 static int model_rule (int x, int target, unsigned flags)
 {
@@ -272,6 +273,24 @@ void vprop_case (VChoices *c, VResult *r)
     orc_program_free (q);
   }
 
+  /* 3b. optionally override a built-in opcode's rule: a rule set for the "sys" set registered now is newer than the target's own */
+  {
+    static RuleUser sys_user;
+    override_on = 0;
+    if (vc_chance (c, 1, 3) && free_sse > 0) {
+      static const unsigned oreq[3] = { ORC_TARGET_SSE_SSE2, ORC_TARGET_SSE_SSE2 | ORC_TARGET_SSE_SSSE3, ORC_TARGET_SSE_SSE2 | ORC_TARGET_SSE_SSE4_1 };
+      OrcRuleSet *rs;
+      override_req = oreq[vc_pick (c, 3)];
+      free_sse--;
+      rs = orc_rule_set_new (orc_opcode_set_get ("sys"), tsse, override_req);
+      sys_user.id = 9999; sys_user.x = X_ADD; sys_user.target = 0;
+      orc_rule_register (rs, "addw", ext_rule, &sys_user);
+      override_on = 1;
+      r->classes |= 1u << 11;
+      v_desc (r, "override: application rule for built-in addw on sse, required flags 0x%x\n", override_req);
+    }
+  }
+
   /* 4. mixed programs */
   for (k = 0; k < 3 && r->verdict != V_FAIL; k++) {
     long before[X_N];
@@ -322,9 +341,18 @@ void vprop_case (VChoices *c, VResult *r)
     }
     if (ok_expected) {
       /* the log holds one entry per extension instruction per emission pass: check every entry against the model */
-      int seen = 0;
+      int seen = 0, has_addw = 0, addw_logged = 0;
+      for (i = 0; i < mix.n; i++) if (!mix.is_ext[i] && mix.op[i] == 0) has_addw = 1;
       for (li = 0; li < n_rule_log; li++) {
         int x = -1, want;
+        if (!strcmp (rule_log[li].op, "addw")) {
+          addw_logged = 1;
+          if (!(override_on && target == 0 && !(override_req & ~flags))) {
+            v_fail (r, "native:override-not-qualified", "the application's rule for built-in addw was invoked although its required flags 0x%x are not within 0x%x (or it was never registered for this target)", override_req, flags);
+            return;
+          }
+          continue;
+        }
         for (i = 0; i < X_N; i++) if (!strcmp (rule_log[li].op, xnames[i])) x = i;
         want = model_rule (x, target, flags);
         seen++;
@@ -340,6 +368,10 @@ void vprop_case (VChoices *c, VResult *r)
           for (q = 0; q < n_mrs; q++) if (mrs[q].set == ss && mrs[q].target == target && !(mrs[q].req & ~flags) && mrs[q].has[jj]) cnt++;
           if (cnt >= 2) r->classes |= 1u << 5;
         }
+      }
+      if (has_addw && override_on && target == 0 && !(override_req & ~flags) && !addw_logged) {
+        v_fail (r, "native:override-ignored", "a rule set registered later for built-in addw qualifies (required 0x%x, flags 0x%x) but the built-in rule was used", override_req, flags);
+        return;
       }
       if (n_ext && !seen) { v_fail (r, "native:rule-not-invoked", "the compile succeeded but no application rule was invoked for %d extension instruction(s)", n_ext); return; }
       v_stage (r, "run native mixed program");
